@@ -21,6 +21,10 @@ def _count_before_quantity(sp):
     k = sp["k"]
     if k == "Count":
         return True
+    if k in ("Label", "UntypedLabel"):
+        # members may be listed in any order (permuted pool members, sort_keys reloads)
+        rs = [_count_before_quantity(ch) for _, ch in S.children(sp)]
+        return True if any(r is True for r in rs) else (False if all(r is False for r in rs) else None)
     if k in S.COLLECTIONS:
         for _, ch in S.children(sp):
             r = _count_before_quantity(ch)
@@ -335,7 +339,8 @@ class History:
         from histogrammar.defs import Factory
 
         a = self.pool[i]
-        return self._derive("fromJson(%s.toJson())" % a.tag, lambda: Factory.fromJson(json.loads(json.dumps(a.obj.toJson()))), a.items, False, {i}, "json", perturb=False)
+        sk = self.rng.random() < 0.5  # documents written with sorted keys come back with another member order
+        return self._derive("fromJson(%s.toJson()%s)" % (a.tag, ", sort_keys" if sk else ""), lambda: Factory.fromJson(json.loads(json.dumps(a.obj.toJson(), sort_keys=sk))), a.items, False, {i}, "json", perturb=False)
 
     def op_pickle(self, i):
         a = self.pool[i]
@@ -530,10 +535,25 @@ def _short(rec):
     return "{" + ",".join("%s=%s" % (k, S.jsonable(v)) for k, v in rec.items()) + "}"
 
 
+def permute_keys(sp, rng):
+    """The same tree with the members of every Label / UntypedLabel listed in another order (a user who
+    writes the keyword arguments in a different order, a document written with sort_keys=True)."""
+    import copy
+
+    sp = copy.deepcopy(sp)
+    for _, n in S.walk(sp):
+        if n["k"] in ("Label", "UntypedLabel") and len(n["pairs"]) > 1:
+            keys = list(n["pairs"])
+            rng.shuffle(keys)
+            n["pairs"] = {k: n["pairs"][k] for k in keys}
+    return sp
+
+
 def run_history(sp, rng, profile, n_ops, pool_size, force=None):
     h = History(sp, rng, profile, force)
-    for _ in range(pool_size):
-        h.new_member(S.build(sp, force), [], True, "build")
+    for j in range(pool_size):
+        spj = permute_keys(sp, rng) if (j % 2 == 1 and profile.get("permute_keys", True)) else sp
+        h.new_member(S.build(spj, force), [], True, "build")
     steps = 0
     while steps < n_ops or (h.pending and steps < n_ops + 8):
         h.step()
